@@ -62,8 +62,8 @@ def judge(c, r, tc, root):
     out = r["out"]
     pl = c["plugin"] or c["family"]
     if r["timeout"]:
-        problems.append(("C09/hang:%s" % c["family"], "goderive did not terminate within %ds (killed; it was still allocating) on: %s / %s" % (
-            TIMEOUT, c["family"], c["what"])))
+        problems.append(("C09/hang:%s" % c["family"], "goderive did not terminate within %ds, run alone (killed) on: %s / %s" % (
+            3 * TIMEOUT, c["family"], c["what"])))
         return problems, notes
     m = runs.CRASH.search(out)
     if m:
@@ -125,6 +125,7 @@ def run(rep):
                         "the type-check oracle is go/types with the source importer (trusted)",
                         "a diagnostic that prints the type only as a %#v dump of go/types internals is counted as naming it (reported as weak)"]
     facts = runs.facts_and_proof(rep, "C09")
+    rep.cov["traces_validated_against_impl"] = runs.import_tie(rep, (60 if rep.tier == "quick" else 400))
     rep.cov["facts"] = {k: facts.get(k) for k in ("swallowedErrors", "toleratedErrors", "droppedSetFuncName", "panicSites", "typeCheckErrors")}
     _, binp = common.build_goderive()
     with runs.Scratch("c09") as root:
@@ -132,6 +133,13 @@ def run(rep):
         rep.cov["corpus"] = stats
         cases = json.load(open(os.path.join(root, "cases.json")))
         results = runs.par(lambda c: runs.goderive(binp, root, ["./" + c["dir"]], timeout=TIMEOUT), cases)
+        # a timeout under machine load is not a hang: re-run those cases one at a time with a long limit
+        for i, (c, r) in enumerate(zip(cases, results)):
+            if r["timeout"]:
+                for f in ("derived.gen.go",):
+                    if f not in c["files"] and os.path.exists(os.path.join(root, c["dir"], f)):
+                        os.remove(os.path.join(root, c["dir"], f))
+                results[i] = runs.goderive(binp, root, ["./" + c["dir"]], timeout=3 * TIMEOUT)
         ok_dirs = [c["dir"] for c, r in zip(cases, results) if r["rc"] == 0 and not r["timeout"]]
         tc = typecheck(root, ok_dirs)
         classes, other = {}, {}
